@@ -456,6 +456,14 @@ class SpecEval:
         if name == 'cast':
             ty = resolve_type(w, self.type_from_ast(args[1]), self.pkg)
             return SV(self.ev(args[0]).t, ty)
+        gf = self.V.contracts.get('ghostfuncs', {}).get(name)
+        if gf is not None and len(args) == len(gf[0]):
+            from .verify import ghost_key
+            key = ghost_key(w, name, gf[0], gf[1])
+            t = self.heap.get(key)
+            for aa in args:
+                t = t[self.ev(aa).t]
+            return SV(t, 'int')
         d = self.V.contracts['defines'].get(name)
         if d is not None:
             params, ret, body = d
